@@ -2,7 +2,7 @@
 announced delay is the waited delay, and the dependence shape of the doubling strategy; the numeric sequence is NOT decided)."""
 from core import rule, loc_of
 from facts import AnchorLost, norm
-import q, effects
+import q, effects, inline
 from tables import *
 from rules.c08 import one
 from rules.c11 import CL
@@ -120,30 +120,40 @@ def r4(c):
     st = [(i, s) for i, s in b.assigns() if s['pl']['p'] and s['pl']['p'][-1].endswith(':current')]
     st_calls = [cs for cs in b.calls() if cs.dest['p'] and cs.dest['p'][-1].endswith(':current')]
     xs = q.exits(b)
-    # returned value: loaded from self.current before the store
-    okr = len(xs) == 1 and xs[0]['kind'] == 'copy'
-    ret_def = None
-    if okr:
-        rl = b.names.get('ret')
-        ds = [d for d in b.defs().get(rl['l'], [])] if rl else []
-        okr = len(ds) == 1 and ds[0][0] == 'assign' and fld(ds[0][2]['rv']['a'][0], 'current') and 'ret' in q.chain_names(b, xs[0]['op'])
-        ret_def = ('b', ds[0][1]) if okr else None
-    store_nodes = [('b', i) for i, _ in st] + [cs.ret for cs in st_calls]
-    okr = okr and len(store_nodes) == 1 and b.dominates(ret_def, store_nodes[0])
-    c.ob('returns-current-before-update', okr, 'after_failed_connect returns the delay that was current BEFORE it is advanced', '%d stores to current' % len(store_nodes), loc_of(b))
-    # stored value = min(2 * current, max)
     mn = [cs for cs in b.calls() if cs.callee in ('core::cmp::min', 'core::cmp::Ord::min')]
-    oks = len(mn) == 1 and len(store_nodes) == 1
-    if oks:
-        args = mn[0].args
+    rep = [cs for cs in b.calls('core::mem::replace') if fld(cs.args[0], 'current')]
+
+    def min_ok(cs):
+        args = cs.args
         dbl = [a for a in args if q.sem(b, a).kind == 'call' and (q.sem(b, a).cs.declared or '').startswith('core::ops::arith::Mul')]
         cap = [a for a in args if fld(a, 'max')]
-        oks = len(dbl) == 1 and len(cap) == 1
+        if len(dbl) != 1 or len(cap) != 1:
+            return False
+        m = q.sem(b, dbl[0]).cs
+        return any(q.const_val(b, a) == 2 for a in m.args) and any(fld(a, 'current') for a in m.args)
+    if len(rep) == 1 and not st and not st_calls:
+        # `mem::replace(&mut self.current, next)`: stores next and returns the value that was there
+        okr = len(xs) == 1 and xs[0]['kind'] == 'call' and xs[0]['cs'] is rep[0] and not b.in_cycle(rep[0].node)
+        c.ob('returns-current-before-update', okr, 'after_failed_connect returns the delay that was current BEFORE it is advanced (mem::replace on self.current)', '', loc_of(b))
+        nv = q.sem(b, rep[0].args[1])
+        oks = len(mn) == 1 and nv.kind == 'call' and nv.cs is mn[0] and min_ok(mn[0]) and b.dominates(mn[0].ret, rep[0].node)
+    else:
+        # returned value: loaded from self.current before the store
+        okr = len(xs) == 1 and xs[0]['kind'] == 'copy'
+        ret_def = None
+        if okr:
+            rl = xs[0]['op']['pl']['l'] if xs[0]['op'].get('k') in ('copy', 'move') and not xs[0]['op']['pl']['p'] else None
+            ds_ = b.whole_defs(rl) if rl is not None else []
+            okr = len(ds_) == 1 and ds_[0][0] == 'assign' and ds_[0][2]['rv']['r'] == 'use' and fld(ds_[0][2]['rv']['a'][0], 'current')
+            ret_def = ('b', ds_[0][1]) if okr else None
+        store_nodes = [('b', i) for i, _ in st] + [cs.ret for cs in st_calls]
+        okr = okr and len(store_nodes) == 1 and b.dominates(ret_def, store_nodes[0])
+        c.ob('returns-current-before-update', okr, 'after_failed_connect returns the delay that was current BEFORE it is advanced', '%d stores to current' % len(store_nodes), loc_of(b))
+        # stored value = min(2 * current, max)
+        oks = len(mn) == 1 and len(store_nodes) == 1 and min_ok(mn[0])
         if oks:
-            m = q.sem(b, dbl[0]).cs
-            oks = any(q.const_val(b, a) == 2 for a in m.args) and any(fld(a, 'current') for a in m.args)
-        stored_from_min = (st_calls and st_calls[0] is mn[0]) or (st and q.sem(b, st[0][1]['rv']['a'][0]).kind == 'call' and q.sem(b, st[0][1]['rv']['a'][0]).cs is mn[0])
-        oks = oks and bool(stored_from_min)
+            stored_from_min = (st_calls and st_calls[0] is mn[0]) or (st and q.sem(b, st[0][1]['rv']['a'][0]).kind == 'call' and q.sem(b, st[0][1]['rv']['a'][0]).cs is mn[0])
+            oks = bool(stored_from_min)
     c.ob('stores-min-of-double-and-max', oks, 'the new current delay is min(2 * current, self.max)', '%d min calls' % len(mn), loc_of(b))
     r = P.fn(DIMPL + 'reset')
     st = [s for i, s in r.assigns() if s['pl']['p'] and s['pl']['p'][-1].endswith(':current')]
@@ -153,18 +163,17 @@ def r4(c):
     xs = q.exits(a)
     oka = len(xs) == 1 and xs[0]['kind'] == 'copy' and q.sem_is_name(a, xs[0]['sem'], 'self') and xs[0]['sem'].proj[-1].endswith(':min') and not [s for i, s in a.assigns() if s['pl']['p'] and 'deref' in s['pl']['p']]
     c.ob('after_disconnect', oka, 'after_disconnect returns min and changes nothing', '', loc_of(a))
-    cr = P.fn(D + '::create')
-    ag = [s for _, s in cr.aggregates(D)]
+    # construction: doubling_retry_strategy(min, max) (seen with its private constructor expanded) builds
+    # Doubling { min, max, current: min }
+    ds = inline.expand(P, P.fn('rodbus::retry::doubling_retry_strategy'), {D + '::create'})
+    ag = [s for _, s in ds.aggregates(D)]
     okc = len(ag) == 1
     if okc:
         f = dict(zip(ag[0]['rv']['fields'], ag[0]['rv']['a']))
-        okc = q.is_name(cr, f['min'], 'min') and q.is_name(cr, f['max'], 'max') and q.is_name(cr, f['current'], 'min')
-    c.ob('create', okc, 'a new strategy starts with current = min and keeps (min, max) as given', '', loc_of(cr))
-    ds = P.fn('rodbus::retry::doubling_retry_strategy')
-    cc = one(ds.calls(D + '::create'), 'Doubling::create')
-    c.ob('doubling_retry_strategy', q.is_name(ds, cc.args[0], 'min') and q.is_name(ds, cc.args[1], 'max'), 'doubling_retry_strategy(min, max) passes them in order', '', cc.loc())
+        okc = q.is_name(ds, f['min'], 'min') and q.is_name(ds, f['max'], 'max') and q.is_name(ds, f['current'], 'min')
+    c.ob('create', okc, 'a new strategy starts with current = min and keeps (min, max) as given, in that order', '%d construction sites in doubling_retry_strategy' % len(ag), loc_of(ds))
     cons = sorted({P.logical_name(x) for x, _, _ in P.constructors(D, crate='rodbus')})
-    c.ob('constructors', cons == [D + '::create'], 'Doubling is constructed only by create', str(cons))
+    c.ob('constructors', bool(cons) and set(cons) <= {D + '::create', 'rodbus::retry::doubling_retry_strategy'}, 'Doubling is constructed only on behalf of doubling_retry_strategy', str(cons))
     ff = P.find_impl('core::convert::From', "alloc::boxed::Box<(dyn rodbus::retry::RetryStrategy + 'static)>", 'from', 'rodbus_ffi::ffi::RetryStrategy') if 'rodbus_ffi' in P.crates else None
     if ff is not None:
         cs = one(ff.calls('rodbus::retry::doubling_retry_strategy'), 'doubling_retry_strategy in the FFI conversion')
